@@ -20,7 +20,8 @@
 #ifndef TBOX_COROUTINE_MUTEX_HPP_20180527
 #define TBOX_COROUTINE_MUTEX_HPP_20180527
 
-#include <queue>
+#include <deque>
+#include <algorithm>
 #include "scheduler.h"
 
 namespace tbox {
@@ -48,10 +49,18 @@ class Mutex {
                 return true;
 
             do {
-                wait_tokens_.push(sch_.getToken()); //! 每次等待前都要登记，否则被唤醒后再次等待就无人唤醒了
+                wait_tokens_.push_back(sch_.getToken()); //! 每次等待前都要登记，否则被唤醒后再次等待就无人唤醒了
                 sch_.wait();
-                if (sch_.isCanceled())
+                if (sch_.isCanceled()) {
+                    //! 被取消了，要撤销自己的登记，否则下次 unlock() 唤醒的是一个已不存在的等待者
+                    auto iter = std::find(wait_tokens_.begin(), wait_tokens_.end(), sch_.getToken());
+                    if (iter != wait_tokens_.end())
+                        wait_tokens_.erase(iter);
+                    //! 如果登记已被 unlock() 取走，说明那次唤醒是给自己的，要转交给下一个等待者
+                    else if (hold_token_.isNull())
+                        wakeupOne();
                     return false;
+                }
             } while (!hold_token_.isNull());
         }
 
@@ -66,10 +75,15 @@ class Mutex {
             return;
 
         hold_token_.reset();
+        wakeupOne();
+    }
 
+  private:
+    //! 唤醒最早的一个等待者
+    void wakeupOne() {
         if (!wait_tokens_.empty()) {
             auto t = wait_tokens_.front();
-            wait_tokens_.pop();
+            wait_tokens_.pop_front();
             sch_.resume(t);
         }
     }
@@ -78,7 +92,7 @@ class Mutex {
     Scheduler &sch_;
 
     RoutineToken hold_token_;
-    std::queue<RoutineToken> wait_tokens_;
+    std::deque<RoutineToken> wait_tokens_;
 };
 
 }
